@@ -115,9 +115,34 @@ func (s *c11Stmt) Exec(args []driver.Value) (driver.Result, error) {
 	s.db.mu.Lock()
 	defer s.db.mu.Unlock()
 	q := strings.ToUpper(s.q)
-	if !strings.Contains(q, "DELETE FROM") || !strings.Contains(q, "BRANCH_ID IN") || len(args) != 2 {
+	if !strings.Contains(q, "DELETE FROM") || !strings.Contains(q, "BRANCH_ID IN") || len(args) < 2 || len(args)%2 != 0 {
 		s.db.badDelete = true
 		return nil, errors.New("c11: unexpected statement " + s.q)
+	}
+	if len(args) > 2 {
+		// branch_id IN (b1..bn) AND xid IN (x1..xn): every row whose branch id is in the
+		// first list and whose xid is in the second
+		s.db.dels++
+		n := len(args) / 2
+		cnt := int64(0)
+		for _, r := range s.db.rows {
+			inB, inX := false, false
+			for k := 0; k < n; k++ {
+				if bs, ok := args[k].(string); ok {
+					if b, err := strconv.ParseInt(bs, 10, 64); err == nil && b == r.branch {
+						inB = true
+					}
+				}
+				if xs, ok := args[n+k].(string); ok && xs == r.xid {
+					inX = true
+				}
+			}
+			if r.present && inB && inX {
+				r.present = false
+				cnt++
+			}
+		}
+		return c11Result{cnt}, nil
 	}
 	s.db.dels++
 	if s.db.dels <= s.db.delFails {
